@@ -21,6 +21,8 @@ import SpoxModel.Props.C06
 #print axioms C06M.loop_carried_pinned_counterexample
 #print axioms C06M.loop_scan_sound
 #print axioms C06M.loop_scan_output_sound
+#print axioms C06M.loop_scan_zero_sound
+#print axioms C06M.nonTensor_outcomes_cover
 #print axioms C06M.stripDim_sound
 #print axioms C06M.stripUnk_sound
 #print axioms C06M.inline_types_sound
